@@ -82,6 +82,7 @@ fn main() {
         "C04" => props::c04::run(&ctx),
         "C05" => props::c05::run(&ctx),
         "C06" => props::c06::run_check(&ctx),
+        "C07" => props::c07::run_check(&ctx),
         "C08" => props::c08::run_check(&ctx),
         "C09" | "C15" => props::c09::run(&ctx),
         "C10" => props::c10::run_check(&ctx),
